@@ -1,2 +1,6 @@
 } // verus!
+// `Result::unwrap` needs `E: Debug` to type-check
+impl std::fmt::Debug for Error {
+    fn fmt(&self, _f: &mut std::fmt::Formatter<'_>) -> std::fmt::Result { Ok(()) }
+}
 fn main() {}
